@@ -1,12 +1,13 @@
 import IoraModel.Lemmas.SyncRecv
 import IoraModel.Lemmas.SyncRecvW
 import IoraModel.Lemmas.SyncRecvT8
+import IoraModel.Lemmas.SyncRecvG3
 import IoraModel.Model.SyncRecvGen
 /-!
 # C03 — Synchronous receive is a lossless ordered stream that drains before EOF
 
 Property theorems only; the model is `Model/SyncRecv.lean` (one step = one `syncMutex` critical section of
-`transport_impl.hpp`, REPAIRED code: fixes F15, F15b, FC03a; FC03b concerns clock arithmetic, which the model does not contain), with
+`transport_impl.hpp`, REPAIRED code: fixes F15, F15b, FC03a, FC02a, FC03c, FC03d; FC03b concerns clock arithmetic, which the model does not contain), with
 `receiveSyncCancellable` as a layer over it (`Model/SyncRecvW.lean`), instantiated from the regenerated lock/notify skeleton
 (`Gen/TsyncSkel.lean` via `Model/TsyncFacts.lean`) and PINNED to it (`skeleton_pinned`).  Every theorem quantifies over ALL step
 sequences (`steps : List Step` — every interleaving of the I/O thread's data/close deliveries with the application's receives,
@@ -37,12 +38,15 @@ set_option maxRecDepth 20000 in
 (equality with the literal lists in `Model/TsyncFacts.lean`), `receiveSyncCancellable` is exactly the loop `Model/SyncRecvW.lean`
 mirrors, `receiveSync` waits under the caller's lock until `now() + timeout` and answers `Timeout` exactly for an unsignalled wait,
 the timeouts are saturated before they enter clock arithmetic (FC03b), step 6 of the `onClose` handler erases the `readModes`
-entry exactly once, under no condition, and `setReadMode` returns at once for a closed tombstone, before it touches `readModes` (T8, FC02a). -/
+entry exactly once, under no condition, and `setReadMode` returns at once for a closed tombstone, before it touches `readModes` (T8, FC02a);
+the close handler marks the session closed BEFORE it invokes the global close callback and the observers, both with no Transport mutex
+held (FC03c); and every condition the model mirrors as a decision has exactly the text - operators and operands - it was written against. -/
 theorem skeleton_pinned :
     TsyncFacts.c03SkeletonPinned = true ∧ TsyncFacts.recvWrapperShape = true ∧ TsyncFacts.recvTimingArgs = true ∧
     TsyncFacts.recvTimeoutsSaturate = true ∧ TsyncFacts.closeForgetsModeUnconditionally = true ∧
-    TsyncFacts.setReadModeSkipsTombstone = true := by
-  exact ⟨by decide, by decide, by decide, by decide, by decide, by decide⟩
+    TsyncFacts.setReadModeSkipsTombstone = true ∧ TsyncFacts.closeMarksBeforeCallbacks = true ∧
+    TsyncFacts.c03ConditionsPinned = true := by
+  exact ⟨by decide, by decide, by decide, by decide, by decide, by decide, by decide, by decide⟩
 
 /-- **T1 (stream, conservation).** After every disciplined step sequence, for every session: the bytes handed out (receive
 results and callback deliveries, in real-time order), then the bytes a flusher holds, then the buffered bytes, then the chunk
@@ -127,6 +131,36 @@ bytes that arrived before the gap, then `BufferOverflow`. -/
 theorem T5_no_post_gap_bytes (cfg : Cfg) (hg : cfg.Good) (steps : List Step) (hd : Disciplined cfg init steps) (sid : Nat) :
     ((run cfg init steps).1.sess sid).lateSync = false :=
   (run_inv hg steps init Inv_init hd sid).L
+
+/-- **T5 (a dropped chunk is never forgotten — tombstone GC included; FC03d repaired).** Every disciplined schedule, every session one of
+whose chunks has been dropped (`gap`), outside teardown: EITHER a receive HAS answered `BufferOverflow` for the session (the event is in
+the run), OR the overflowed buffer is still in the map — and then (`T5_overflow_reported`, `T5_overflow_wakes_parked`) the next receive
+that finds it drained answers `BufferOverflow`, before `PeerClosed`. No hypothesis about the GC: the close handler's GC pass reclaims an
+overflowed tombstone only after its overflow has been reported (`T5_gc_keeps_unreported_overflow`). The unrepaired gate reclaimed it as
+soon as it was closed and drained: ok [1,2], then Timeout, and the dropped bytes were never reported (corpus/C03/FC03d-*.json). -/
+theorem T5_gap_always_reported (cfg : Cfg) (hg : cfg.Good) (steps : List Step) (hd : Disciplined cfg init steps) (sid : Nat)
+    (hgap : ((run cfg init steps).1.sess sid).gap = true) (hsh : (run cfg init steps).1.shuttingDown = false) :
+    Ev.recvRet sid .overflow ∈ (run cfg init steps).2 ∨
+      ∃ b, ((run cfg init steps).1.sess sid).buf = some b ∧ b.overflow = true := by
+  have h3 := run_inv3 hg steps init Inv_init Inv3_init hd sid
+  rcases h3.1 hgap with h | h | h
+  · rw [hsh] at h; cases h
+  · left
+    rcases run_ovfSeen cfg sid steps init h with h' | h'
+    · simp [init] at h'
+    · exact h'
+  · right
+    unfold ovfBuf at h
+    cases hb : ((run cfg init steps).1.sess sid).buf with
+    | none => simp [hb] at h
+    | some b => exact ⟨b, rfl, by simpa [hb] using h⟩
+
+/-- **T5 (the GC gate).** A buffer the close handler's GC pass may reclaim is closed, drained, unused — and NOT an overflowed buffer whose
+overflow no receive has answered yet. -/
+theorem T5_gc_keeps_unreported_overflow (y : Sess) (b : Buf) (hb : y.buf = some b) (hr : reclaimable y = true) :
+    b.closed = true ∧ b.hasData = false ∧ (b.overflow = true → b.reported = true) := by
+  unfold reclaimable at hr
+  cases ho : b.overflow <;> simp_all
 
 /-- **T6 (no lost wake-up).** In every reachable state, a parked receive whose wait predicate holds because of data, close or
 overflow has been notified (it re-acquires the lock without waiting for its timeout). This uses the skeleton facts: each such
@@ -278,6 +312,39 @@ theorem T8_quiet_step (cfg : Cfg) (s : State) (sid : Nat) (hq : Quiet s sid) (st
     Quiet (step cfg s st).1 sid ∧ ∀ d, Ev.cbData sid d ∉ (step cfg s st).2 :=
   quiet_step hq st hok
 
+/-! ### T8 measured from the close CALLBACK (FC03c, repaired: the handler marks the session closed BEFORE it invokes the callbacks) -/
+
+/-- **T8 (the close callback is invoked by the handler only, after the mark).** `Ev.closeCb sid` — the invocation of the global close
+callback and the session's observers — is emitted by exactly one kind of step, `ioCloseCb sid`, and only while the close handler is
+past the `syncMutex` section that marked `sid` closed, erased its read mode and left the tombstone (`closePend`, set by `ioClose sid`
+alone). Any state, any step. -/
+theorem T8_cb_after_mark (cfg : Cfg) (s : State) (st : Step) (sid : Nat) (hev : Ev.closeCb sid ∈ (step cfg s st).2) :
+    st = .ioCloseCb sid ∧ s.closePend = some sid :=
+  closeCb_emitted hev
+
+/-- **T8 (nothing is delivered after the close CALLBACK).** Every disciplined schedule, every step `st` that invokes the close callback
+of `sid`: neither that step nor ANY later step hands bytes of `sid` to the data callback — whatever the application does from inside
+the callback, from an observer, or on any thread that synchronises with them (mode switches of the id included) — unless a
+`setReadMode(sid, Async)` flush was ALREADY in progress when the close was processed (`closeGrace`; necessary, see the example below).
+This is the statement an application can observe: it is keyed on the callback, not on the handler's internal section. -/
+theorem T8_cb_nothing_delivered_after_close_callback (cfg : Cfg) (pre post : List Step) (st : Step) (sid : Nat)
+    (hd : Disciplined cfg init (pre ++ st :: post))
+    (hev : Ev.closeCb sid ∈ (step cfg (run cfg init pre).1 st).2)
+    (hg : (run cfg init pre).1.closeGrace = false) :
+    ∀ d, Ev.cbData sid d ∉ (run cfg (run cfg init pre).1 (st :: post)).2 := by
+  have hd' := (disciplined_append cfg pre (st :: post) init).mp hd
+  have hk := run_closeK pre init CloseK_init hd'.1
+  obtain ⟨_, hp⟩ := closeCb_emitted hev
+  exact quiet_run (st :: post) _ (hk sid hp hg) hd'.2
+
+/-- **T8 (between the mark and the callback the session is already quiet).** In every reachable state in which the close handler has
+marked `sid` closed and not yet invoked its callbacks (no flush of `sid` having been in progress at the mark), `sid` is `Quiet`:
+there is NO window before the callback in which a mode switch could still flush (the window FC03c closed). -/
+theorem T8_cb_no_window (cfg : Cfg) (steps : List Step) (hd : Disciplined cfg init steps) (sid : Nat)
+    (hp : (run cfg init steps).1.closePend = some sid) (hg : (run cfg init steps).1.closeGrace = false) :
+    Quiet (run cfg init steps).1 sid :=
+  run_closeK steps init CloseK_init hd sid hp hg
+
 /-! ### `receiveSyncCancellable` (Model/SyncRecvW.lean) -/
 
 /-- **W0 (a wrapper execution is a core execution).** The core steps of a wrapper execution are its `.base` steps: the core state
@@ -323,6 +390,7 @@ theorem W3_timeout_only_at_deadline (cfg : Cfg) (ws : WState) (st : WStep) (sid 
       · simp at h1
       · exact (mem_afterSub h1).2.2 rfl
   | cancel sid' => simp [wstep] at hev
+  | reset sid' => simp [wstep] at hev
   | wCall sid' len =>
     exfalso
     simp only [wstep] at hev
@@ -358,6 +426,7 @@ theorem W1_return_is_subcall_result (cfg : Cfg) (ws : WState) (st : WStep) (sid 
         apply List.mem_append_left
         rw [hX]; simp [evRecv]
   | cancel sid' => simp [wstep] at hev
+  | reset sid' => simp [wstep] at hev
   | wCall sid' len =>
     exfalso
     simp only [wstep] at hev
@@ -397,6 +466,7 @@ theorem W2_cancelled_only_if_cancelled (cfg : Cfg) (ws : WState) (st : WStep) (s
         apply List.mem_append_left
         rw [hX]; simp [evRecv]
   | cancel sid' => simp [wstep] at hev
+  | reset sid' => simp [wstep] at hev
   | wCall sid' len =>
     left
     simp only [wstep] at hev
@@ -425,6 +495,40 @@ theorem W2_cancelled_only_if_cancelled (cfg : Cfg) (ws : WState) (st : WStep) (s
 theorem W2_precancelled (cfg : Cfg) (ws : WState) (sid len : Nat) (hw : ws.w sid = none) (ht : ws.tok sid = true) :
     wstep cfg ws (.wCall sid len) = (ws, [.wrapRet sid .cancelled]) := by
   simp [wstep, hw, ht]
+
+/-! ### the composed stream over wrapper calls, cancels and token resets -/
+
+/-- **W4 (the callers' stream is the core stream).** Over ANY wrapper execution — any number of `receiveSyncCancellable` calls (each
+any number of sub-calls), plain `receiveSync` calls, data-callback deliveries, cancels and token RESETS in between, disciplined or not —
+the bytes the application is handed for a session (wrapper returns, plain receive returns, callback deliveries; a sub-call's own
+result is internal to the wrapper) are exactly the session's `out` of the underlying core run: a wrapper call never swallows bytes a
+sub-call took out of the buffer (whatever its token says at that moment) and never invents any. -/
+theorem W4_callers_stream_is_core_stream (cfg : Cfg) (wsteps : List WStep) (sid : Nat) :
+    wrunUser sid cfg winit wsteps = ((run cfg init (coreSteps wsteps)).1.sess sid).out := by
+  rw [wrunUser_eq, (W0_wrapper_is_core cfg wsteps).2.1, ← T1_out_is_events]
+
+/-- **W4 (wrapper-level stream).** Every disciplined wrapper execution, every session: what the callers have been handed, then what a
+flusher holds, then the buffer, then the chunk pending for the callback, is exactly what was accepted, in arrival order — nothing
+skipped, nothing twice — and all that arrived when nothing was dropped; and it is a PREFIX of what arrived (unless the application
+switched to Async after an overflow). -/
+theorem W4_wrapper_stream (cfg : Cfg) (hg : cfg.Good) (wsteps : List WStep) (hd : DisciplinedW cfg winit wsteps) (sid : Nat) :
+    let s := (wrun cfg winit wsteps).1.core
+    let x := s.sess sid
+    wrunUser sid cfg winit wsteps ++ inflight x ++ bufData x ++ pd (pendO s sid) = x.accepted ∧
+      (x.gap = false → x.accepted = x.arrived) ∧
+      (x.lateAsync = false → ∃ t, x.arrived = wrunUser sid cfg winit wsteps ++ t) := by
+  obtain ⟨h1, _, h3⟩ := W0_wrapper_is_core cfg wsteps
+  have hdc := h3 hd
+  simp only [h1, W4_callers_stream_is_core_stream]
+  exact ⟨(T1_stream cfg hg _ hdc sid).1, (T1_stream cfg hg _ hdc sid).2, fun hl => T1_out_prefix cfg hg _ hdc sid hl⟩
+
+/-- **W5 (token reset).** `CancellationToken::reset()` between two calls (never during one: `okW`) re-arms the token: the next wrapper
+call is admitted (it does not answer `Cancelled` at entry), and a reset changes nothing else — no core state, no running call. -/
+theorem W5_reset_rearms (cfg : Cfg) (ws : WState) (sid len : Nat) (hw : ws.w sid = none) :
+    (wstep cfg ws (.reset sid)).1.core = ws.core ∧ (wstep cfg ws (.reset sid)).1.w = ws.w ∧ (wstep cfg ws (.reset sid)).2 = [] ∧
+    (wstep cfg (wstep cfg ws (.reset sid)).1 (.wCall sid len)).2 = [] ∧
+    (wstep cfg (wstep cfg ws (.reset sid)).1 (.wCall sid len)).1.w sid = some { len := len, phase := .idle } := by
+  simp [wstep, hw, setW]
 
 /-! ### non-vacuity: concrete disciplined runs exercising the hypotheses -/
 
@@ -489,5 +593,48 @@ example : (wrun cfg10 winit
     [.base (.setMode 1 .sync), .wCall 1 4, .wLoop 1 false, .cancel 1, .base (.recvEnter 1 4), .base (.recvWake 1 true),
      .wLoop 1 false]).2 =
     [.base (.modeRet 1 true), .base (.recvRet 1 .timeout), .wrapRet 1 .cancelled] := by decide
+
+/-- T8 from the callback (FC03c): the handler marks the session (`ioClose`), THEN invokes the callbacks (`ioCloseCb`); a
+`setReadMode(Async)` made by a thread that learnt about the close from the callback is vacuous, the tail goes to `receiveSync` -/
+example : disciplinedB cfg10 init [.setMode 1 .sync, .ioData 1 [7, 8], .ioClose 1, .ioCloseCb 1, .setMode 1 .async, .flushStep 1, .recvEnter 1 9] = true ∧
+    (run cfg10 init [.setMode 1 .sync, .ioData 1 [7, 8], .ioClose 1, .ioCloseCb 1, .setMode 1 .async, .flushStep 1, .recvEnter 1 9]).2 =
+      [.modeRet 1 true, .closeCb 1, .modeRet 1 true, .recvRet 1 (.ok [7, 8])] ∧
+    (run cfg10 init [.setMode 1 .sync, .ioData 1 [7, 8], .ioClose 1]).1.closeGrace = false := by decide
+/-- the same switch made in the window BETWEEN the mark and the callback (the window the unrepaired handler had on the other side) is
+vacuous as well -/
+example : (run cfg10 init [.setMode 1 .sync, .ioData 1 [7, 8], .ioClose 1, .setMode 1 .async, .flushStep 1, .ioCloseCb 1, .flushStep 1]).2 =
+      [.modeRet 1 true, .modeRet 1 true, .closeCb 1] := by decide
+/-- `closeGrace` is necessary: a flush already in progress when the close is processed delivers what it took AFTER the close callback -/
+example : disciplinedB cfg10 init [.setMode 1 .sync, .ioData 1 [7, 8], .setMode 1 .async, .flushStep 1, .flushStep 1, .ioClose 1, .ioCloseCb 1, .flushStep 1] = true ∧
+    (run cfg10 init [.setMode 1 .sync, .ioData 1 [7, 8], .setMode 1 .async, .flushStep 1, .flushStep 1, .ioClose 1, .ioCloseCb 1, .flushStep 1]).2 =
+      [.modeRet 1 true, .closeCb 1, .cbData 1 [7, 8]] ∧
+    (run cfg10 init [.setMode 1 .sync, .ioData 1 [7, 8], .setMode 1 .async, .flushStep 1, .flushStep 1, .ioClose 1]).1.closeGrace = true := by decide
+/-- the close callback is invoked once per close, and only after the mark -/
+example : (run cfg10 init [.ioCloseCb 1, .ioClose 1, .ioCloseCb 1, .ioCloseCb 1]).2 = [.closeCb 1] := by decide
+
+/-- W4/W5: a cancelled call, a token reset, then a second call that reads PAST the point where the first one stopped: the callers'
+stream is the arrival stream (the C03-d window: a cancel landing in the same sub-interval as the data does not lose the bytes) -/
+example : (wrun cfg10 winit
+    [.base (.setMode 1 .sync), .wCall 1 4, .wLoop 1 false, .base (.recvEnter 1 4), .cancel 1, .base (.ioData 1 [7, 8]), .base (.recvWake 1 false),
+     .wCall 1 4, .reset 1, .base (.ioData 1 [9]), .wCall 1 4, .wLoop 1 false, .base (.recvEnter 1 4)]).2 =
+    [.base (.modeRet 1 true), .base (.recvRet 1 (.ok [7, 8])), .wrapRet 1 (.ok [7, 8]), .wrapRet 1 .cancelled,
+     .base (.recvRet 1 (.ok [9])), .wrapRet 1 (.ok [9])] ∧
+    wrunUser 1 cfg10 winit
+    [.base (.setMode 1 .sync), .wCall 1 4, .wLoop 1 false, .base (.recvEnter 1 4), .cancel 1, .base (.ioData 1 [7, 8]), .base (.recvWake 1 false),
+     .wCall 1 4, .reset 1, .base (.ioData 1 [9]), .wCall 1 4, .wLoop 1 false, .base (.recvEnter 1 4)] = [7, 8, 9] := by decide
+
+/-- T5 under the tombstone GC (FC03d): cap 3, GC threshold 0. `[1,2]` read, `[3,4,5,6]` dropped, the session closes, ANOTHER session's close
+runs a GC pass: the overflowed tombstone is kept, the late receive answers BufferOverflow (the unrepaired gate reclaimed it: Timeout);
+once reported, the next GC pass reclaims it -/
+example : disciplinedB { maxBuf := 3, gcThreshold := 0 } init
+    [.setMode 1 .sync, .ioData 1 [1, 2], .recvEnter 1 9, .ioData 1 [3, 4, 5, 6], .ioClose 1, .ioClose 2, .recvEnter 1 9, .ioClose 3] = true ∧
+    (run { maxBuf := 3, gcThreshold := 0 } init
+      [.setMode 1 .sync, .ioData 1 [1, 2], .recvEnter 1 9, .ioData 1 [3, 4, 5, 6], .ioClose 1, .ioClose 2, .recvEnter 1 9]).2 =
+      [.modeRet 1 true, .recvRet 1 (.ok [1, 2]), .recvRet 1 .overflow] ∧
+    ((run { maxBuf := 3, gcThreshold := 0 } init
+      [.setMode 1 .sync, .ioData 1 [1, 2], .recvEnter 1 9, .ioData 1 [3, 4, 5, 6], .ioClose 1, .ioClose 2]).1.sess 1).buf.isSome = true ∧
+    ((run { maxBuf := 3, gcThreshold := 0 } init
+      [.setMode 1 .sync, .ioData 1 [1, 2], .recvEnter 1 9, .ioData 1 [3, 4, 5, 6], .ioClose 1, .ioClose 2, .recvEnter 1 9, .ioClose 3]).1.sess 1).buf.isSome = false := by
+  decide
 
 end Iora.C03
